@@ -56,7 +56,7 @@ def run(ctx):
     ctx.trusted += ["hand-written model Obs/Pairing.v tied to obs.py by correspondence"]
     ctx.assumptions += ["tolerance 2^-30"]
     ctx.copy_props()
-    common.tie_pycore(ctx, ["Tie_reduce.v", "Tie_reweight.v", "Tie_correlate.v"])
+    common.tie_pycore(ctx, ["Tie_reduce.v", "Tie_reweight.v", "Tie_correlate.v", "Tie_corrpair.v"])
     cases = []
 
     def add(opterm, impl, descr, key, what, replay):
